@@ -27,6 +27,19 @@ UMAX = 1.0 - 2.0 ** -53         # largest value of raysect.core.math.random.unif
 SIG_OOB = 'C17:emissivity_from_function:tri_index-out-of-range'
 
 
+def voxmod():
+    """the module under test.  VERIF_C17_MUTANT=<dir> (used only by harness/props/c17_mut.py, the mutation smoke test)
+    substitutes an out-of-tree build `voxels_mut` of an edited copy of voxels.pyx; /repo is never touched."""
+    d = os.environ.get('VERIF_C17_MUTANT')
+    if d:
+        if d not in sys.path:
+            sys.path.insert(0, d)
+        import voxels_mut
+        return voxels_mut
+    import cherab.tools.inversions.voxels as m
+    return m
+
+
 # ------------------------------------------------------------------------------------------------------
 # exact helpers (Fractions)
 # ------------------------------------------------------------------------------------------------------
@@ -273,8 +286,7 @@ def variants(vs):
 # implementation adapters
 # ------------------------------------------------------------------------------------------------------
 def impl_geom(vs):
-    from cherab.tools.inversions.voxels import AxisymmetricVoxel
-    st, v = call(AxisymmetricVoxel, vs)
+    st, v = call(voxmod().AxisymmetricVoxel, vs)
     if st != 'ok':
         return dict(status=st, msg=v)
     out = dict(status='ok', voxel=v)
@@ -316,10 +328,14 @@ def point_triangle_py(v1, v2, v3, u1, u2):
 
 
 _OOB_SCRIPT = r'''
-import json, sys
-from cherab.tools.inversions.voxels import AxisymmetricVoxel
-from raysect.core.math.random import seed
+import json, sys, os
 d = json.load(sys.stdin)
+if os.environ.get('VERIF_C17_MUTANT'):
+    sys.path.insert(0, os.environ['VERIF_C17_MUTANT'])
+    from voxels_mut import AxisymmetricVoxel
+else:
+    from cherab.tools.inversions.voxels import AxisymmetricVoxel
+from raysect.core.math.random import seed
 v = AxisymmetricVoxel([tuple(p) for p in d['vertices']])
 pts = []
 def f(r, phi, z):
@@ -626,7 +642,7 @@ def run(ctx):
                                          [1.0, 0.5, -0.25, 0.125], rng.randrange(1, 2 ** 62)), res[0], res[1]))
 
     # ---- constructor error branches (malformed stream) ------------------------------------------------------------
-    from cherab.tools.inversions.voxels import AxisymmetricVoxel, ToroidalVoxelGrid
+    AxisymmetricVoxel, ToroidalVoxelGrid = voxmod().AxisymmetricVoxel, voxmod().ToroidalVoxelGrid
     for bad in ([(1.0, 0.0), (2.0, 0.0)], [(-0.5, 0.0), (1.0, 0.0), (1.0, 1.0)], [(1.0, 0.0)], [(1.0, 0.0), (2.0, 0.0), (2.0, 1.0), (-1e-9, 1.0)]):
         st, _ = call(AxisymmetricVoxel, bad)
         jobs.append((line_geom(bad), ('bad', dict(vertices=bad), st)))
@@ -709,15 +725,16 @@ def run(ctx):
         c['total'], c['cum'] = total, cum
         check_triangulation(ctx, c, mom)
         monitor['polygons'] += 1
-        if oob_reachable(total, cum) and not flags['clamped'] and flags['scale_is_total']:
+        if oob_reachable(total, cum):
+            # some value of uniform() makes find_index(...) + 1 == num_triangles: only a clamp keeps the index in range
             p = (total - cum[-1]) / total
             monitor['reachable'] += 1
-            ctx.count('monitor:tri_index-out-of-range-reachable')
+            ctx.count('monitor:lookup-reaches-num_triangles' + ('(clamped)' if flags['clamped'] else '(UNCLAMPED)'))
             if p > monitor['worst_p']:
                 monitor['worst_p'], monitor['worst'] = p, dict(vertices=c['verts'], total=total, cum_last=cum[-1])
-        # would this seeded stream leave the table?  (then the implementation must not be run in-process)
-        hit = [i for i in range(c['n']) if len(cum) > 1 and flags['scale_is_total'] and not flags['clamped'] and total * c['us'][3 * i] >= cum[-1]]
-        if hit:
+        # would this seeded stream leave the table?  (then an unclamped implementation must not be run in-process)
+        hit = [i for i in range(c['n']) if len(cum) > 1 and flags['scale_is_total'] and total * c['us'][3 * i] >= cum[-1]]
+        if hit and not flags['clamped']:
             demonstrate_oob(ctx, c['verts'], c['seed'], hit[0] + 1, flags, source='stream')
             continue
         keep.append((c, vox, mom))
@@ -743,7 +760,7 @@ def run(ctx):
     # ---- float-gap monitor -> demonstration on the implementation --------------------------------------------------------------------------
     ctx.extra['monitor_tri_index_in_range'] = dict(polygons=monitor['polygons'], polygons_with_reachable_out_of_range=monitor['reachable'],
                                                    worst_probability_per_sample=monitor['worst_p'], worst=monitor['worst'])
-    if flags['scale_is_total'] and not flags['clamped']:
+    if flags['scale_is_total']:
         search_oob(ctx, flags)
     ctx.log('polygons %d, K lines %d, emis cases %d, monitor reachable %d/%d (worst p %.3g)' % (
         npoly, len(jobs), len(keep), monitor['reachable'], monitor['polygons'], monitor['worst_p']))
@@ -853,13 +870,22 @@ def search_oob(ctx, flags):
             continue
         if demonstrate_oob(ctx, verts, seed_, hit + 1, flags, source='search', p=p):
             return True
+        # in-range implementation: also compare the whole sampled sequence up to and including the clamped sample with the model
+        if hit + 1 <= 20000:
+            g = impl_geom(verts)
+            c = emis_case(ctx, g, dict(kind='far', placement='far', vertices=verts), hit + 1, [0.5, 1e-3, -1e-3, 0.0], seed_)
+            c['total'], c['cum'] = total, cum
+            o = ctx.driver([line_emis(c['verts'], c['tris'], c['n'], c['coef'], c['us'])])[0]
+            compare_emis(ctx, c, o, run_emis_real(c, g), flags)
+            ctx.count('oob:clamped-sequence-compared')
     return False
 
 
 def demonstrate_oob(ctx, verts, seed_, n, flags, source, p=None):
-    """the model predicts that sample n-1 of emissivity_from_function(seed) looks up triangle index == num_triangles.
-    Run the real code (in a separate process) and test the property on what it did: the last sample point must be the
-    point_triangle image of one of the voxel's triangles."""
+    """Sample n-1 of emissivity_from_function(seed) has total_area*u >= cumulative_areas[-1]: `find_index(...) + 1` equals
+    num_triangles.  Run the real code (in a separate process: an unclamped read outside `_triangles` may crash) and test the
+    property on what it did: the last sample point must be the point_triangle image of one of the voxel's triangles
+    (and, for the correspondence with the clamped model, of the last one)."""
     verts = [tuple(v) for v in verts]
     tris = impl_triangles(verts)
     us = uniform_stream(seed_, 3 * n)
@@ -867,7 +893,8 @@ def demonstrate_oob(ctx, verts, seed_, n, flags, source, p=None):
     res = run_oob_in_subprocess(verts, seed_, n)
     replay = dict(check='oob', vertices=verts, seed=seed_, n=n, triangles=tris, u=[u0, u1, u2], source=source, probability_per_sample=p)
     ctx.case(key=('oob', tuple(f2b(x) for x in flat(verts)), seed_, n), sample=dict(stream='oob', vertices=verts, seed=seed_, grid_samples=n))
-    ctx.count('oob:demonstrations')
+    ctx.count('oob:streams-reaching-num_triangles')
+    ctx.traces += 1
     if 'crash' in res:
         ctx.fail(SIG_OOB, 'emissivity_from_function crashed the interpreter (exit %s) on voxel %r, seed %d, grid_samples %d: the looked-up '
                  'triangle index equals num_triangles' % (res['crash'], verts, seed_, n), replay)
@@ -880,10 +907,14 @@ def demonstrate_oob(ctx, verts, seed_, n, flags, source, p=None):
     if not match:
         inside = inside_even_odd(pr, pz, verts)
         ctx.fail(SIG_OOB, 'voxel %r, raysect seed %d: sample %d of emissivity_from_function was evaluated at (%r, %r), which is the image of none of the '
-                 '%d triangles of the cross-section (%s the polygon): total_area*u = %r >= cumulative_areas[-1], so tri_index == num_triangles and '
+                 '%d triangles of the cross-section (%s the polygon): u = %r gives total_area*u >= cumulative_areas[-1], so tri_index == num_triangles and '
                  '_triangles is read out of bounds (boundscheck off)' % (verts, seed_, n - 1, pr, pz, len(tris), 'inside' if inside else 'OUTSIDE', u0), replay)
         return True
     ctx.count('oob:implementation-stayed-in-range')
+    if flags['clamped'] and len(tris) - 1 not in match:
+        _disagree(ctx, 'emis-clamp', dict(model='triangle %d (clamped)' % (len(tris) - 1), implementation='triangle(s) %r' % match, input=replay))
+    if not flags['clamped']:
+        _disagree(ctx, 'emis-clamp', dict(model='index out of range (source is not clamped)', implementation='triangle(s) %r' % match, input=replay))
     return False
 
 
